@@ -1,7 +1,7 @@
 """C02 — Jaccard distance = |A xor B| / |A or B| rounded once to float32."""
 import itertools
 
-from core import nats, exc_kind
+from core import nats, exc_kind, safe_check
 
 PROPS = ('GambitV.Props.C02', 'GambitV.C02')
 TIE = []
@@ -121,7 +121,7 @@ def run(ctx):
 	rng = ctx.rng
 
 	def sub(case, tag, nontrivial=None):
-		lines, pf = check(ctx, case)
+		lines, pf = safe_check(check, ctx, case)
 		if nontrivial is None:
 			if case['kind'] == 'pair':
 				sa, sb = set(case['a']), set(case['b'])
